@@ -403,10 +403,20 @@ def handleRL (st : St) (kind : String) (a : Args) (obs : String) : IO St := do
         | some b, some e => some (b, e)
         | _, _ => none
       | _ => none)
+    let ivs (s : String) : List (Int × Int) := (s.splitOn ",").filterMap (fun s => match s.splitOn ":" with
+      | [b, e] => match b.toInt?, e.toInt? with
+        | some b, some e => some (b, e)
+        | _, _ => none
+      | _ => none)
+    let admi := ivs (arg a "admi")
     let bound := adm.all (fun t => decide ((RL.countIn adm (t - rate) t : Int) ≤ max limit 0))
-    let starved := rej.any (fun (b, e) => decide (((adm.filter (fun t => b - rate < t ∧ t ≤ e)).length : Int) < limit))
+    -- a rejected call has seen `limit` admissions inside its window; every admitted call whose caller-side
+    -- interval reaches into (b - rate, e] is counted, so too few of them is a certain violation
+    let starved := rej.any (fun (b, e) => decide (((admi.filter (fun (ab, ae) => b - rate < ae ∧ ab ≤ e)).length : Int) < limit))
     let m := if !bound then "BOUND-EXCEEDED" else if starved then "STARVED" else "ok"
-    if obs.startsWith m then return st else report st kind m obs
+    -- the conclusions of the C19 theorems must hold of what the implementation did, and the harness
+    -- (which evaluates the same two conditions in Go) must agree
+    if m == "ok" && obs == "ok" then return st else report st kind "ok" (if m == "ok" then obs else m ++ " / " ++ obs)
   | _ => report st kind "unknown-line-kind" obs
 
 /-! Client: history store, calibration, energy rows -/
@@ -501,6 +511,14 @@ def handleCl (st : St) (kind : String) (a : Args) (obs : String) : IO St := do
       let st := { st with hist := h' }
       let m := "ok " ++ histCanon h'
       if m == obs then return st else report st kind m obs
+  | "cl.hist.readfault" =>
+    -- reads of the history file fail (I/O error), writes would succeed: where the store has to look at
+    -- the file (slot inside the range) both operations report the error and the file stays as it is;
+    -- before the origin a load answers 0 without reading, and a save is refused by the range guard
+    let ts := argNat a "ts"
+    let loadOk := decide (ts < st.hist.origin)
+    let m := s!"save=false load={loadOk} " ++ histCanon st.hist
+    if m == obs then return st else report st kind m obs
   | "cl.hist.load" =>
     let m := match st.hist.load (argNat a "ts") with | none => "err" | some v => toString v
     if m == obs then return st else report st kind m obs
